@@ -130,3 +130,20 @@ claim("C08",
       "index kinds), full read by the library and by plain pyarrow (no metadata, struct of equal-length lists, same content), selections with interleaved "
       "fields of two nests compared with the full read and with the Coq model, reject_nesting, files written by plain pyarrow (well-formed, ragged, non-list leaf).",
       NOTE, "Coq proof (regrouping index arithmetic) + correspondence check on real parquet files", "DESIGN.md 6/C08")
+
+# third-round additions (appended to the claim texts)
+_MORE = {
+    "C03": " Third round: the list view EXACTLY (a missing row is a null list) from well-formedness alone; list / element views of any field selection.",
+    "C05": " Third round: a frame as columns taken with one indexer - row selection and reordering move whole rows (FrameRows.v).",
+    "C06": " Third round: the index test of frame['nest.field'] = value cannot go wrong with distinct labels (and can with repeated ones: the open finding).",
+    "C07": " Third round: the layer preflight and routing of query over expression trees with binary, unary and call nodes (Preflight.v).",
+    "C08": " Third round: the CONTENT of a partially loaded nested column on the physical level = the selected fields of the full column (Io2.v).",
+    "C10": " Third round: the argument scan and the packing of dotted outputs of reduce (Reduce2.v); count_nested(by=...) (CountBy.v).",
+    "C11": " Third round: the one layer the keys name, and the ascending flags handed to the engine (Targets.v).",
+    "C12": " Third round: the one layer on_nested / subset name, with an exact characterisation of refusal (Targets.v).",
+    "C14": " Third round: for ANY path text what item access resolves to a field, reduce / sort_values / dropna resolve to the same field (Proofs_Names2).",
+    "C19": " Third round: a list-of-structs input of any chunking and offsets base is stored with exactly its records.",
+}
+for _pid, _t in _MORE.items():
+    if _pid in CLAIMED:
+        CLAIMED[_pid] = (CLAIMED[_pid][0] + _t,) + CLAIMED[_pid][1:]
